@@ -638,7 +638,7 @@ fn expected_probes(prop: &str) -> Vec<&'static str> {
         "C10" => vec!["c10_history_with_adversarial_traffic", "c10_history_ends_with_partial_frame", "c10_history_ends_with_armed_timer", "c10_history_ends_with_pending_subscribe", "c10_history_ends_with_stored_packets", "c10_new_session_by_session_not_present"],
         "C11" => vec!["c11_matrix_cells", "c11_matrix_cells_refused", "c11_compile_time_table_checked", "c11_refused_call_injected"],
         "C16" => vec!["c16_crash_points", "c16_crash_with_stored_packets", "c16_crash_with_handled_qos2", "c16_malformed_export_duplicates", "c16_restore_after_connect"],
-        "C17" => vec!["c17_matrix_cells", "c17_matrix_cells_rejected", "c17_version_twin_runs", "c17_version_detected", "c17_connect_on_established", "c17_connack_on_established", "c17_forbidden_kind"],
+        "C17" => vec!["c17_matrix_cells", "c17_matrix_cells_rejected", "c17_version_twin_runs", "c17_version_detected", "c17_connect_on_established", "c17_connack_on_established", "c17_forbidden_kind", "c17_version_twin_restored_session"],
         "C05" => vec!["c05_reconnect_after_adversary", "c09_bad_remaining_length", "error_reported"],
         "C20" => vec!["c20_range_exhausted", "c20_three_or_more_intervals", "c20_u32_extreme_range", "c20_single_value_range", "c20_enumerated_case"],
         "C19" => vec!["c19_disconnect_sent", "c19_connack_refusal_sent", "c19_keepalive_timeout", "c19_close_requested"],
